@@ -18,11 +18,17 @@ class Livelock(RuntimeError):
     pass
 
 
+class Deadlock(RuntimeError):
+    pass
+
+
 class VirtualLoop(asyncio.SelectorEventLoop):
     def __init__(self):
         super().__init__()
         self._vtime = 1_000_000.0
         self._auto_jump = True
+        self.detect_deadlock = False
+        self.max_time = None
         self.slept = []   # durations passed to call_later/call_at deltas (for sleep bookkeeping)
 
     def time(self):
@@ -36,6 +42,13 @@ class VirtualLoop(asyncio.SelectorEventLoop):
             self._timer_cancelled_count -= 1 if self._timer_cancelled_count > 0 else 0
 
     def _run_once(self):
+        if not self._ready:
+            self._drop_cancelled_head()
+        if self.detect_deadlock and not self._ready and not self._scheduled:
+            # nothing is runnable and no timer is pending: every task waits on something nobody will ever complete
+            raise Deadlock('event loop idle: all tasks are blocked')
+        if self.max_time is not None and self._vtime > self.max_time:
+            raise Deadlock('virtual clock ran away: some task keeps sleeping and retrying forever')
         if self._auto_jump and not self._ready:
             self._drop_cancelled_head()
             if self._scheduled:
